@@ -16,10 +16,15 @@ Recognised shapes in from_json (anything else -> Unrecognised -> translatorOk :=
     optionals[P] = data.get(K, default)          if K in data: <the above>  (also with an isinstance(...) if/else inside)
     optionals = {}   id_ = data['id']            return cls(a, b, …, **optionals)
 K is a string constant or `<Class>.tag` (resolved through the class attribute `_tag`).
+Behaviour-preserving spellings reduced to the above before reading (round 7): a dict comprehension / for loop over a LITERAL
+tuple of keys or over a class-level literal (`cls._FLAG_DEFAULTS`, resolved statically) is unrolled with the loop variables
+substituted; `v = data.get(K)` makes `v` an alias of `data[K]` (and `isinstance(v, …)` then implies `K in data`); if/elif chains;
+logging / print statements are skipped; `self._helper()` calls are followed when collecting the attributes `_call` reads.
 """
 from __future__ import annotations
 
 import ast
+import copy
 from pathlib import Path
 
 CLASSES = {"BDSKModel": "torchtree/evolution/bdsk.py", "BirthDeathModel": "torchtree/evolution/birth_death.py"}
@@ -75,9 +80,71 @@ def key_of(e, classes):
     raise Unrecognised("key expression " + ast.unparse(e))
 
 
+ALIASES = {}  # local name -> JSON key it holds (v = data.get(K) / v = data[K]); reset per from_json
+
+
 def data_keys(e, classes):
-    return [key_of(n.slice, classes) for n in ast.walk(e)
-            if isinstance(n, ast.Subscript) and isinstance(n.value, ast.Name) and n.value.id == "data"]
+    out = [key_of(n.slice, classes) for n in ast.walk(e)
+           if isinstance(n, ast.Subscript) and isinstance(n.value, ast.Name) and n.value.id == "data"]
+    out += [ALIASES[n.id] for n in ast.walk(e) if isinstance(n, ast.Name) and n.id in ALIASES and isinstance(n.ctx, ast.Load)]
+    return out
+
+
+class Subst(ast.NodeTransformer):
+    """replace loop variables by the constants of one iteration"""
+
+    def __init__(self, env):
+        self.env = env
+
+    def visit_Name(self, node):
+        if isinstance(node.ctx, ast.Load) and node.id in self.env:
+            return ast.copy_location(ast.Constant(self.env[node.id]), node)
+        return node
+
+
+def literal_items(e, cls):
+    """the elements of a literal tuple/list, or of a class-level literal reached as cls.X / self.X / <Class>.X"""
+    if isinstance(e, ast.Attribute) and isinstance(e.value, ast.Name) and e.value.id in ("cls", "self", cls.name):
+        for st in cls.body:
+            if isinstance(st, ast.Assign) and any(isinstance(t, ast.Name) and t.id == e.attr for t in st.targets):
+                return literal_items(st.value, cls)
+            if isinstance(st, ast.AnnAssign) and isinstance(st.target, ast.Name) and st.target.id == e.attr and st.value is not None:
+                return literal_items(st.value, cls)
+        raise Unrecognised("class attribute " + ast.unparse(e))
+    if isinstance(e, ast.Call) and ast.unparse(e.func) in ("tuple", "list") and len(e.args) == 1:
+        return literal_items(e.args[0], cls)
+    if isinstance(e, ast.Call) and isinstance(e.func, ast.Attribute) and e.func.attr == "items" and not e.args:
+        d = e.func.value
+        if isinstance(d, ast.Attribute):
+            for st in cls.body:
+                if isinstance(st, ast.Assign) and any(isinstance(t, ast.Name) and t.id == d.attr for t in st.targets):
+                    d = st.value
+        if isinstance(d, ast.Dict):
+            return [(ast.literal_eval(k), ast.literal_eval(v)) for k, v in zip(d.keys, d.values)]
+    try:
+        v = ast.literal_eval(e)
+    except (ValueError, SyntaxError):
+        raise Unrecognised("not a literal sequence: " + ast.unparse(e)[:60])
+    if isinstance(v, dict):
+        return list(v)
+    if isinstance(v, (tuple, list)):
+        return list(v)
+    raise Unrecognised("not a literal sequence: " + ast.unparse(e)[:60])
+
+
+def bind(target, item):
+    if isinstance(target, ast.Name):
+        return {target.id: item}
+    if isinstance(target, ast.Tuple) and isinstance(item, (tuple, list)) and len(target.elts) == len(item) and all(isinstance(t, ast.Name) for t in target.elts):
+        return {t.id: v for t, v in zip(target.elts, item)}
+    raise Unrecognised("loop target " + ast.unparse(target))
+
+
+def is_logging(st):
+    if isinstance(st, ast.Expr) and isinstance(st.value, ast.Call):
+        f = ast.unparse(st.value.func)
+        return f == "print" or f.split(".")[0] in ("logger", "logging", "log", "warnings")
+    return False
 
 
 def read_kind(e, classes):
@@ -111,17 +178,43 @@ def from_json_rows(cls: ast.ClassDef, classes):
     local = {}  # local variable -> (key, kind, default, guard)
     rows = []  # (param, key, guard, kind)
 
+    ALIASES.clear()
+
+    def unrolled(target, iterable, body_of):
+        out = []
+        for item in literal_items(iterable, cls):
+            env = bind(target, item)
+            out += [ast.fix_missing_locations(Subst(env).visit(copy.deepcopy(x))) for x in body_of]
+        return out
+
     def block(stmts, guard):
         for st in stmts:
             if isinstance(st, ast.Expr) and isinstance(st.value, ast.Constant):
+                continue
+            if is_logging(st):
+                continue
+            if isinstance(st, ast.For) and not st.orelse:
+                block(unrolled(st.target, st.iter, st.body), guard)
                 continue
             if isinstance(st, ast.Assign) and len(st.targets) == 1:
                 t = st.targets[0]
                 if isinstance(t, ast.Name):
                     if isinstance(st.value, ast.Dict) and not st.value.keys:
                         continue  # optionals = {}
+                    if t.id == "optionals" and isinstance(st.value, ast.DictComp) and len(st.value.generators) == 1:
+                        # optionals = {k: f(data[k]) for k in (…literal…) if k in data}  ==  a sequence of guarded assignments
+                        g = st.value.generators[0]
+                        asg = ast.Assign(targets=[ast.Subscript(value=ast.Name("optionals", ast.Load()), slice=st.value.key, ctx=ast.Store())],
+                                         value=st.value.value, lineno=st.lineno)
+                        inner = [asg]
+                        for cond in reversed(g.ifs):
+                            inner = [ast.If(test=cond, body=inner, orelse=[], lineno=st.lineno)]
+                        block(unrolled(g.target, g.iter, inner), guard)
+                        continue
                     k, kind, d = read_kind(st.value, classes)
                     local[t.id] = (k, kind, guard)
+                    if kind == "raw":
+                        ALIASES[t.id] = k  # the local now stands for data[K]
                     continue
                 if (isinstance(t, ast.Subscript) and isinstance(t.value, ast.Name) and t.value.id == "optionals"
                         and isinstance(t.slice, ast.Constant)):
@@ -136,7 +229,10 @@ def from_json_rows(cls: ast.ClassDef, classes):
                     continue
                 if isinstance(test, ast.Call) and ast.unparse(test.func) == "isinstance":
                     before = len(rows)
-                    block(st.body, guard)
+                    # isinstance(v, …) with v = data.get(K): true only when K is present
+                    a0 = test.args[0] if test.args else None
+                    g_body = ALIASES[a0.id] if (isinstance(a0, ast.Name) and a0.id in ALIASES and not guard) else guard
+                    block(st.body, g_body)
                     mid = len(rows)
                     block(st.orelse, guard)
                     # both branches must fill the same parameter from the same key
@@ -171,6 +267,9 @@ def from_json_rows(cls: ast.ClassDef, classes):
             raise Unrecognised(f"{cls.name}.from_json: statement " + ast.unparse(st)[:80])
 
     block(fn.body, "")
+    # one canonical order (that of the constructor's parameters): the order in which independent options are parsed is not
+    # part of the table
+    rows.sort(key=lambda r: params.index(r[0]) if r[0] in params else len(params))
     out = []
     for p, k, g, kind in rows:
         a = ann.get(p, "")
@@ -181,12 +280,26 @@ def from_json_rows(cls: ast.ClassDef, classes):
     return out
 
 
-def self_reads(fn: ast.FunctionDef):
+def self_reads(fn: ast.FunctionDef, cls: ast.ClassDef = None, depth=3):
+    """attributes of self read by fn, in source order; a call self._helper(...) of a method of the same class is replaced by
+    what the helper reads (up to `depth` levels)"""
+    methods = {n.name: n for n in cls.body if isinstance(n, ast.FunctionDef)} if cls is not None else {}
+    called = {id(n.func) for n in ast.walk(fn) if isinstance(n, ast.Call) and isinstance(n.func, ast.Attribute)
+              and isinstance(n.func.value, ast.Name) and n.func.value.id == "self" and n.func.attr in methods}
     out = []
-    for n in ast.walk(fn):
-        if isinstance(n, ast.Attribute) and isinstance(n.value, ast.Name) and n.value.id == "self" and isinstance(n.ctx, ast.Load):
-            if n.attr not in out:
-                out.append(n.attr)
+
+    class V(ast.NodeVisitor):
+        def visit_Attribute(self, n):
+            if isinstance(n.value, ast.Name) and n.value.id == "self" and isinstance(n.ctx, ast.Load):
+                if id(n) in called and depth > 0 and n.attr not in ("_call", "_sample_shape"):
+                    for r in self_reads(methods[n.attr], cls, depth - 1):
+                        if r not in out:
+                            out.append(r)
+                elif n.attr not in out:
+                    out.append(n.attr)
+            self.generic_visit(n)
+
+    V().visit(fn)
     return out
 
 
@@ -209,6 +322,18 @@ def defined_attrs(classes, cname):
     return out
 
 
+def init_assigned(classes, cname):
+    out = []
+    for c in bases_of(classes, cname):
+        for st in classes[c].body:
+            if isinstance(st, ast.FunctionDef) and st.name == "__init__":
+                for n in ast.walk(st):
+                    if (isinstance(n, ast.Attribute) and isinstance(n.value, ast.Name) and n.value.id == "self"
+                            and isinstance(n.ctx, ast.Store) and n.attr not in out):
+                        out.append(n.attr)
+    return out
+
+
 def inert_handlers(cls: ast.ClassDef):
     out = []
     for st in cls.body:
@@ -225,6 +350,7 @@ def lstr(s):
 
 def translate(repo: Path):
     """-> (lean_source, ok, note, table)"""
+    repo = Path(repo)
     notes, ok, table = [], True, {}
     classes = all_classes(repo)
     src = []
@@ -237,8 +363,9 @@ def translate(repo: Path):
                 fn = next((n for n in cls.body if isinstance(n, ast.FunctionDef) and n.name == m), None)
                 if fn is None:
                     raise Unrecognised(f"{cname}.{m} missing")
-                reads += [r for r in self_reads(fn) if r not in reads]
-            defs = defined_attrs(classes, cname)
+                reads = sorted(set(reads) | set(self_reads(fn, cls)))
+            init_attrs = init_assigned(classes, cname)
+            defs = [d for d in defined_attrs(classes, cname) if d in init_attrs or not d.startswith("_") or d in reads or d.startswith("__")]
             inert = inert_handlers(cls)
             table[cname] = {"options": rows, "reads": reads, "defs": defs, "inert": inert}
             opt = ",\n      ".join(f"⟨{lstr(p)}, {lstr(k)}, {lstr(g)}, {lstr(kind)}, {lstr(exp)}, {'true' if isp else 'false'}⟩"
